@@ -1,13 +1,13 @@
 #!/bin/bash
-# confirmseed.sh <ID>: in the scratch worktree /tmp/wt_<ID> (patch applied by the sub-agent)
+# confirmseed.sh <ID> [worktree]: in the scratch worktree /tmp/wt_<ID> (patch applied by the sub-agent)
 # confirm: demo fails with the patch, the pinned test suite passes with it, demo passes without.
-ID=$1; WT=/tmp/wt_$ID
+ID=$1; WT=${2:-/tmp/wt_$ID}; TAG=$(basename $WT)
 cd "$WT" || exit 2
 P=patch_$ID.diff; D=demo_$ID.py
 git apply -R --check "$P" 2>/dev/null || { git checkout -- adcgen; git apply "$P" || exit 2; }
-PYTHONPATH=$WT timeout 900 /venv/bin/python "$D" >/tmp/confirm_$ID.with.log 2>&1; with=$?
-PYTHONPATH=$WT /venv/bin/python -m pytest -q -p no:cacheprovider tests >/tmp/confirm_$ID.tests.log 2>&1; tests=$?
+PYTHONPATH=$WT timeout 900 /venv/bin/python "$D" >/tmp/confirm_$TAG.with.log 2>&1; with=$?
+PYTHONPATH=$WT /venv/bin/python -m pytest -q -p no:cacheprovider tests >/tmp/confirm_$TAG.tests.log 2>&1; tests=$?
 git apply -R "$P"
-PYTHONPATH=$WT timeout 900 /venv/bin/python "$D" >/tmp/confirm_$ID.without.log 2>&1; without=$?
+PYTHONPATH=$WT timeout 900 /venv/bin/python "$D" >/tmp/confirm_$TAG.without.log 2>&1; without=$?
 git apply "$P"
-echo "$ID demo_with_patch=$with tests=$tests ($(tail -1 /tmp/confirm_$ID.tests.log)) demo_without_patch=$without"
+echo "$TAG $ID demo_with_patch=$with tests=$tests ($(tail -1 /tmp/confirm_$TAG.tests.log)) demo_without_patch=$without"
